@@ -453,7 +453,11 @@ pub fn c02_fair(seed: u64, defaults: bool) -> Scenario {
     let link = mtu.unwrap_or(1500);
     let k: u8 = if defaults { 1 } else { r.range(1, 2) as u8 };
     let lat = *r.pick(&[0u64, 1000, 5000, 20_000, 50_000, 100_000]);
-    let d_max_us: u64 = if defaults { 100_000 } else { *r.pick(&[100_000u64, 400_000, 1_500_000]) };
+    // (library defaults: an accepted connection waits 5 x 200 ms for the initiator's first
+    // packet; with one-way delays of 100 ms one lost SYN-ACK plus one lost first data packet
+    // end exactly in a tie with that limit, so "defaults are enough" holds below 100 ms only)
+    let lat = if defaults { lat.min(80_000) } else { lat };
+    let d_max_us: u64 = if defaults { 90_000 } else { *r.pick(&[100_000u64, 400_000, 1_500_000]) };
     let jitter = r.range(0, d_max_us.saturating_sub(lat).min(d_max_us));
     let mut mk = |r: &mut Rng| {
         let mut o = OptsCfg { link_mtu: mtu, ..Default::default() };
